@@ -10,7 +10,7 @@ from typing import Dict, List, Optional, Set, Tuple
 from .. import flow
 from ..cfg import cfg_of
 from ..escape import TOTAL_CODECS
-from ..model import UNKNOWN, AnchorError, Func, UnknownIdiom, dotted, short, unparse
+from ..model import UNKNOWN, AnchorError, Func, UnknownIdiom, attr_chain as _attr_chain, dotted, short, unparse
 from .appflow import ASGI_CALL, WSGI_CALL, AppFlow
 from .c04_helpers import (DROP, Index, aliases as _aliases, SiteEscape, assume_none, assigned_none_attrs, attr_of, catches_exception, combine,
                           def_value, effective_method, eval3, handler_class_quals, is_name, none_test, param_at, project_pruned, pruned,
@@ -4087,6 +4087,89 @@ def _http_scope_atom(f: Func):
     return atom
 
 
+def _membership_facts(test, truth: bool) -> Set[Tuple[str, str]]:
+    """(key text, mapping text) pairs `k in d` that HOLD when `test` evaluates to `truth`: `k in d` (true), `k not in d` /
+    `not (k in d)` (false), every conjunct of a true `and`, every disjunct of a false `or`."""
+    out: Set[Tuple[str, str]] = set()
+    if isinstance(test, ast.UnaryOp) and isinstance(test.op, ast.Not):
+        return _membership_facts(test.operand, not truth)
+    if isinstance(test, ast.BoolOp):
+        if isinstance(test.op, ast.And) == truth:
+            for v in test.values:
+                out |= _membership_facts(v, truth)
+        return out
+    if isinstance(test, ast.Compare) and len(test.ops) == 1 and isinstance(test.ops[0], (ast.In, ast.NotIn)):
+        if isinstance(test.ops[0], ast.In) == truth:
+            ch = _attr_chain(test.comparators[0])
+            if ch:
+                out.add((short(test.left), '.'.join(ch)))
+    return out
+
+
+class _GuardedSiteEscape(SiteEscape):
+    """SiteEscape that also reads the membership guards the engine does not: those established INSIDE an expression -
+    `d[k] if k in d else c`, `c if k not in d else d[k]`, `k in d and d[k]`, `k not in d or d[k]` - and on the ELSE arm of a
+    statement `if k not in d: ... else: d[k]`.  A subscript `d[k]` evaluated only when `k in d` held for the same key text on
+    the same mapping text cannot raise KeyError; nothing but the operands themselves runs between the test and the subscript
+    of one expression (the same assumption the engine's statement-level `if k in d:` guard makes).  A guard on ANOTHER key or
+    ANOTHER mapping, or the subscript on the arm where the key is absent, is still reported."""
+
+    def _stmt(self, s, func, selfcls, handlers, out, caught_ctx):
+        if isinstance(s, ast.If) and s.orelse and not (self.stmt_filter is not None and func is self.root_func and not self.stmt_filter(s)):
+            neg = _membership_facts(s.test, False)
+            if neg:
+                self._expr(s.test, func, selfcls, handlers, out)
+                pos = _membership_facts(s.test, True)
+                for facts, block in ((pos, s.body), (neg, s.orelse)):
+                    if facts:
+                        self._guarded_block(block, func, selfcls, handlers, out, caught_ctx, facts)
+                    else:
+                        self._block(block, func, selfcls, handlers, out, caught_ctx)
+                return
+        super()._stmt(s, func, selfcls, handlers, out, caught_ctx)
+
+    def _expr(self, e, func, selfcls, handlers, out, store=False):
+        if e is None:
+            return
+        if not any(isinstance(n, (ast.IfExp, ast.BoolOp)) for n in walk_self(e)):
+            return super()._expr(e, func, selfcls, handlers, out, store)
+        self._gexpr(e, func, selfcls, handlers, out)
+
+    def _under(self, facts, e, func, selfcls, handlers, out):
+        if facts:
+            self._guards.append(facts)
+            try:
+                self._gexpr(e, func, selfcls, handlers, out)
+            finally:
+                self._guards.pop()
+        else:
+            self._gexpr(e, func, selfcls, handlers, out)
+
+    def _gexpr(self, e, func, selfcls, handlers, out):
+        if isinstance(e, ast.IfExp):
+            self._gexpr(e.test, func, selfcls, handlers, out)
+            self._under(_membership_facts(e.test, True), e.body, func, selfcls, handlers, out)
+            self._under(_membership_facts(e.test, False), e.orelse, func, selfcls, handlers, out)
+            return
+        if isinstance(e, ast.BoolOp):
+            facts: Set[Tuple[str, str]] = set()
+            truth = isinstance(e.op, ast.And)   # a later operand runs when the earlier ones were all true (and) / all false (or)
+            for v in e.values:
+                self._under(set(facts), v, func, selfcls, handlers, out)
+                facts |= _membership_facts(v, truth)
+            return
+        if isinstance(e, ast.Call):
+            self._call(e, func, selfcls, handlers, out)
+        elif isinstance(e, ast.Attribute) and isinstance(e.ctx, ast.Load):
+            self._attr_read(e, func, selfcls, handlers, out)
+        elif isinstance(e, ast.Subscript) and isinstance(e.ctx, ast.Load):
+            self._subscript(e, func, handlers, out)
+        if isinstance(e, (ast.FunctionDef, ast.AsyncFunctionDef, ast.ClassDef, ast.Lambda)):
+            return
+        for ch in ast.iter_child_nodes(e):
+            self._gexpr(ch, func, selfcls, handlers, out)
+
+
 def _pre_try(run, app: str, qual: str, tag: str):
     p = run.project
     af = AppFlow(p, qual)
@@ -4119,7 +4202,7 @@ def _pre_try(run, app: str, qual: str, tag: str):
     site_exempt = {}
     for cls, ctor in ctors:
         site_exempt.update(_path_info_exemptions(p, ctor))
-    E = SiteEscape(p, key_exempt=KEY_EXEMPT, site_exempt=site_exempt)
+    E = _GuardedSiteEscape(p, key_exempt=KEY_EXEMPT, site_exempt=site_exempt)
     # only what runs for an HTTP request before the first protected region (not the websocket / lifespan dispatch)
     onpath = flow.reachable(cfg, [cfg.entry], avoid_nodes=nodes_within(cfg, [body[first]]), edge_filter=pruned(cfg, _http_scope_atom(f)))
     E.restrict(f, lambda s: bool(nodes_within(cfg, [s]) & onpath))
